@@ -308,50 +308,9 @@ def _expand(prog, b, t):
     return ('bundle',) + tuple(out)
 
 
-def _upvar_index(cb):
-    """{captured name: position} of a closure body, from the field projections on its environment parameter."""
-    idx = {}
-
-    def walk(x):
-        if isinstance(x, dict):
-            if x.get('local') == 1 and isinstance(x.get('proj'), list):
-                for e in x['proj']:
-                    if e.get('k') == 'field':
-                        idx.setdefault(e['name'], e['i'])
-                        break
-            for v in x.values():
-                if isinstance(v, (dict, list)):
-                    walk(v)
-        elif isinstance(x, list):
-            for v in x:
-                walk(v)
-    walk(cb.raw.get('blocks', []))
-    return idx
-
-
-def _subst_closure(cb, t, caps, args):
-    """closure return term with its parameters replaced by the call's arguments and its captures by the captured values"""
-    up = _upvar_index(cb)
-
-    def f(x):
-        if not isinstance(x, tuple):
-            return x
-        if x[0] == 'param' and x[1] >= 2 and x[1] - 2 < len(args):
-            return args[x[1] - 2]
-        if x[0] == 'fld' and util.is_param(x[1], 1) and x[2] in up and up[x[2]] < len(caps):
-            return caps[up[x[2]]]
-        return (x[0],) + tuple(f(y) if isinstance(y, tuple) else y for y in x[1:])
-    return f(t)
-
-
-def _subst_params(t, args):
-    def f(x):
-        if not isinstance(x, tuple):
-            return x
-        if x[0] in ('param', 'mparam') and x[1] - 1 < len(args):
-            return args[x[1] - 1]
-        return (x[0],) + tuple(f(y) if isinstance(y, tuple) else y for y in x[1:])
-    return f(t)
+_upvar_index = util.upvar_index
+_subst_closure = util.subst_closure
+_subst_params = util.subst_params
 
 
 def _offsets(ctx, prog, wt, rd):
